@@ -56,3 +56,132 @@ Example C18_ex2 : nonempty_ivs [(4, 6); (0, 2); (1, 5)] /\ smooth_model [(4, 6);
 Proof. split; [ intros s e [H|[H|[H|[]]]]; inversion H; lia | vm_compute; reflexivity ]. Qed.
 Example C18_ex3 : separated 0 [(0, 1); (3, 8); (10, 14)] /\ debounce_model 2 [(0, 1); (3, 8); (10, 14)] = [(3, 14)].
 Proof. split; [ simpl; lia | vm_compute; reflexivity ]. Qed.
+
+(* ====================================================================================
+   Extension: edge_rising / edge_falling, epochs with pad, the read-only variant, algebraic laws.
+   Proofs in Runs/ProofsX.v, specifications in Runs/SpecX.v. *)
+From PV Require Import Runs.SpecX Runs.ProofsX.
+
+(* edge_rising(x) is exactly the list of starts of the maximal runs that do not start at 0, and
+   edge_falling(x) exactly the list of run ends below len(x), both in order *)
+Theorem C18_edges_are_run_boundaries : forall x,
+  rising x = filter (fun s => negb (s =? 0)) (map fst (runs x)) /\
+  falling x = filter (fun e => e <? zlen x) (map snd (runs x)).
+Proof. exact edges_are_run_boundaries. Qed.
+Print Assumptions C18_edges_are_run_boundaries.
+
+(* ... the two columns of the run list are: [0 if x starts True] ++ rising, falling ++ [len if x ends True] *)
+Theorem C18_runs_columns : forall x,
+  map fst (runs x) = (if hd false x then [0] else []) ++ rising x /\
+  map snd (runs x) = falling x ++ (if last x false then [zlen x] else []).
+Proof. exact runs_columns. Qed.
+Print Assumptions C18_runs_columns.
+
+(* ... so an index is a rising (falling) edge iff it is the start <> 0 (end <> len) of a maximal run *)
+Theorem C18_edges_in_runs : forall x,
+  (forall s, In s (rising x) <-> (s <> 0 /\ exists e, is_max_run x s e)) /\
+  (forall e, In e (falling x) <-> (e <> zlen x /\ exists s, is_max_run x s e)).
+Proof. exact edges_in_runs. Qed.
+Print Assumptions C18_edges_in_runs.
+
+(* epochs(x, pad): the result is the run list of the padded array (the caller's array after the call) *)
+Theorem C18_epochs_pad : forall pad x, epochs_pad_model pad x = Some (runs (pad_apply pad x)).
+Proof. exact epochs_pad. Qed.
+Print Assumptions C18_epochs_pad.
+
+Theorem C18_pad_apply_0 : forall x, pad_apply 0 x = x.
+Proof. exact pad_apply_0. Qed.
+Print Assumptions C18_pad_apply_0.
+
+(* the padded array, for EVERY integer pad and position: same length, and a position is True iff it was True
+   or is selected by a Python slice [s-pad : s] (s a rising edge of the original x) or [e : e+pad] (e a falling
+   edge), negative bounds wrapping as CPython adjusts them *)
+Theorem C18_pad_apply_slices : forall pad x,
+  zlen (pad_apply pad x) = zlen x /\
+  forall i, bit (pad_apply pad x) i =
+    bit x i || existsb (fun s => in_slice (zlen x) (s - pad) s i) (rising x)
+            || existsb (fun e => in_slice (zlen x) e (e + pad) i) (falling x).
+Proof. exact pad_apply_bit. Qed.
+Print Assumptions C18_pad_apply_slices.
+
+(* written out for 0 <= pad: True before, or from a falling edge e up to e+pad (exclusive), or within
+   `before_edge` of a rising edge s: the pad samples before s when pad <= s, and otherwise - the lower bound
+   s - pad being negative - only the positions s-pad+len .. s-1 (none unless pad > len) *)
+Theorem C18_pad_apply_char : forall pad x i, 0 <= pad -> 0 <= i < zlen x ->
+  (bit (pad_apply pad x) i = true <->
+   bit x i = true \/
+   (exists s, In s (rising x) /\ before_edge (zlen x) pad s i) \/
+   (exists e, In e (falling x) /\ e <= i < e + pad)).
+Proof. exact pad_apply_char. Qed.
+Print Assumptions C18_pad_apply_char.
+
+(* The expected reading "the pad samples before s, clipped at 0" is FALSE of the code when a rising edge is
+   closer than pad to the start: x = [0,0,1], pad = 3 writes nothing (x[-1:2] is empty).
+   Code: util.epochs([0,0,1,1,0,0,0], 3) -> [[2, 7]], while pad = 2 gives [[0, 6]]. *)
+Theorem C18_pad_clipped_refuted : exists pad x s i, 0 <= pad /\ 0 <= i < zlen x /\
+  In s (rising x) /\ before_edge_clipped pad s i /\ bit (pad_apply pad x) i = false.
+Proof. exact pad_clipped_refuted. Qed.
+Print Assumptions C18_pad_clipped_refuted.
+
+(* it holds exactly under the hypothesis that excludes those inputs *)
+Theorem C18_pad_clipped_partial : forall pad x i, 0 <= pad -> 0 <= i < zlen x ->
+  (forall s, In s (rising x) -> pad <= s) ->
+  (bit (pad_apply pad x) i = true <->
+   bit x i = true \/
+   (exists s, In s (rising x) /\ before_edge_clipped pad s i) \/
+   (exists e, In e (falling x) /\ e <= i < e + pad)).
+Proof. exact pad_apply_char_partial. Qed.
+Print Assumptions C18_pad_clipped_partial.
+
+(* a read-only array with pad <> 0: whenever the call returns, it returns the runs of x *)
+Theorem C18_epochs_ro_runs : forall x r, epochs_ro_model x = Some r -> r = runs x.
+Proof. exact epochs_ro_runs. Qed.
+Print Assumptions C18_epochs_ro_runs.
+
+(* interval merging is idempotent on every list of intervals s <= e (empty ones included), and leaves
+   sorted non-touching lists - in particular the output of run detection - alone *)
+Theorem C18_smooth_idempotent : forall l, weak_ivs l -> smooth_model (smooth_model l) = smooth_model l.
+Proof. exact smooth_idempotent. Qed.
+Print Assumptions C18_smooth_idempotent.
+
+Theorem C18_smooth_fix : forall l, separated 0 l -> smooth_model l = l.
+Proof. exact smooth_fix. Qed.
+Print Assumptions C18_smooth_fix.
+
+(* debouncing with limit d leaves alone every list of runs >= d with gaps > d, hence is idempotent *)
+Theorem C18_debounce_fix : forall d l, 0 <= d -> separated d l ->
+  (forall s e, In (s, e) l -> e - s >= d) -> debounce_model d l = l.
+Proof. exact debounce_fix. Qed.
+Print Assumptions C18_debounce_fix.
+
+Theorem C18_debounce_idempotent : forall d l, 0 <= d -> separated 0 l ->
+  debounce_model d (debounce_model d l) = debounce_model d l.
+Proof. exact debounce_idempotent. Qed.
+Print Assumptions C18_debounce_idempotent.
+
+(* limit 0 on the output of run detection is the identity; limit 1 is NOT (it joins runs separated by a
+   single False sample: [1,0,1] -> [(0,3)]) unless all gaps are longer than one sample *)
+Theorem C18_debounce_0_runs : forall x, debounce_model 0 (runs x) = runs x.
+Proof. exact debounce_0_runs. Qed.
+Print Assumptions C18_debounce_0_runs.
+
+Theorem C18_debounce_1_runs_refuted : exists x, debounce_model 1 (runs x) <> runs x.
+Proof. exact debounce_1_runs_refuted. Qed.
+Print Assumptions C18_debounce_1_runs_refuted.
+
+Theorem C18_debounce_1_runs_partial : forall x, separated 1 (runs x) -> debounce_model 1 (runs x) = runs x.
+Proof. exact debounce_1_runs_partial. Qed.
+Print Assumptions C18_debounce_1_runs_partial.
+
+(* non-vacuity of the new hypotheses *)
+Example C18_ex4 : pad_apply 2 [false; false; true; true; false; false; false] = [true; true; true; true; true; true; false] /\
+  (forall s, In s (rising [false; false; true; true; false; false; false]) -> 2 <= s) /\
+  epochs_pad_model 2 [false; false; true; true; false; false; false] = Some [(0, 6)].
+Proof. split; [reflexivity|]. split; [intros s [H|[]]; lia|reflexivity]. Qed.
+Example C18_ex5 : weak_ivs [(4, 6); (2, 2); (0, 2)] /\ separated 1 (runs [true; false; false; true]) /\
+  separated 2 [(0, 2); (5, 8)] /\ (forall s e, In (s, e) [(0, 2); (5, 8)] -> e - s >= 2) /\
+  epochs_ro_model [true; true] = Some [(0, 2)].
+Proof.
+  split; [intros s e [H|[H|[H|[]]]]; inversion H; lia|]. split; [cbn; lia|]. split; [cbn; lia|].
+  split; [intros s e [H|[H|[]]]; inversion H; lia|reflexivity].
+Qed.
